@@ -9,7 +9,7 @@
 From Coq Require Import List NArith Bool String.
 From Verif Require Import Lib.Utf8 Jsonx.Lex Jsonx.Tok Jsonx.GoStr Jsonx.Num Jsonx.NumProofs
   Jsonx.Parse Jsonx.Json Jsonx.Encode Jsonx.Print Jsonx.PrintProofs Jsonx.Roundtrip
-  Jsonx.GenTypes Gen.JsonxConsts Gen.JsonxOwn Jsonx.Own Jsonx.FileModel Jsonx.ConstsGen Jsonx.FileProofs.
+  Jsonx.GenTypes Gen.JsonxConsts Gen.JsonxOwn Jsonx.Own Jsonx.FileModel Jsonx.ConstsGen Jsonx.FileProofs Jsonx.NoLimit.
 Import ListNotations.
 Local Open Scope N_scope.
 
@@ -193,6 +193,35 @@ Theorem C07_overlay_write_refuted : forall old text tail,
   read_file (run_writes Overlay [(0%nat, old); (0%nat, text)] fs0) 0%nat = Some (text ++ tail).
 Proof. exact overlay_keeps_tail. Qed.
 Print Assumptions C07_overlay_write_refuted.
+
+(** No token length limit: a string of ANY length n is printed as a literal
+    that the lexer reads back as one token, whole and without error, and that
+    unquotes to the string (the printer emits tokens of every length, the
+    lexer must take them); the integers the source names are the known
+    three, none of them a bound on the input. *)
+Theorem C07_no_token_length_limit : forall is_print : N -> bool,
+  is_print 10 = false ->
+  forall (n : nat) rs rest, List.length rs = n -> forallb valid_rune rs = true ->
+  lex_string 34 (go_quote is_print rs ++ rest) = LTok (mkTok TString (go_quote is_print rs)) [] rest /\
+  go_unquote (go_quote is_print rs) = Some (utf8_encode rs) /\
+  (n + 2 <= List.length (go_quote is_print rs))%nat.
+Proof. exact no_token_length_limit. Qed.
+Print Assumptions C07_no_token_length_limit.
+
+Theorem C07_named_integers_known : gen_int_literals = [420; 55296; 57344].
+Proof. exact gen_int_literals_known. Qed.
+Print Assumptions C07_named_integers_known.
+
+(** A scanner that reports an error once a token has [max] runes rejects a
+    literal the printer prints, for every [max]. *)
+Theorem C07_bounded_scanner_refuted : forall is_print : N -> bool,
+  is_print 10 = false ->
+  forall max : nat,
+  exists rs, forallb valid_rune rs = true /\ List.length rs = max /\
+    bounded max (lex_string 34 (go_quote is_print rs))
+    <> LTok (mkTok TString (go_quote is_print rs)) [] [].
+Proof. exact bounded_scanner_refuted. Qed.
+Print Assumptions C07_bounded_scanner_refuted.
 
 (** Non-vacuity: a value with a negative fraction, an exponent with "+", an
     integer above 2^63, keyword and non-identifier keys, escapes and nesting. *)
